@@ -6,6 +6,8 @@ import json
 import os
 import subprocess
 import tempfile
+import os as _os
+REPO = _os.environ.get("VERIF_REPO", "/repo")
 
 from .. import tlc
 
@@ -37,7 +39,7 @@ def run_helpers(chk, funcs):
     with os.fdopen(fd, "w") as fh:
         fh.write("\n".join(lines) + "\n")
     env = dict(os.environ)
-    env["PYTHONPATH"] = f"/repo:{tlc.VERIF}"
+    env["PYTHONPATH"] = f"{REPO}:{tlc.VERIF}"
     env["ADCGEN_LOG_LEVEL"] = "ERROR"
     try:
         pr = subprocess.run(["/venv/bin/python", "-m",
